@@ -4,7 +4,7 @@
    extracted model evaluates on the code's tree imply the textbook junction-tree properties, (3) the schedule check. *)
 From Coq Require Import List Arith Bool Permutation.
 Import ListNotations.
-Require Import PGM.Base.Sums PGM.Model.BP PGM.Model.JTree PGM.Proofs.JTP PGM.Proofs.BPrunP PGM.Proofs.BPlinkP PGM.Proofs.JTreeP.
+Require Import PGM.Base.Sums PGM.Model.BP PGM.Model.JTree PGM.Proofs.JTP PGM.Proofs.BPrunP PGM.Proofs.BPlinkP PGM.Proofs.JTreeP PGM.Proofs.WeightP.
 
 (* every input clique is contained in some elimination clique, for every elimination order that eliminates it *)
 Theorem C12_triangulation_covers attrs cliques order C : In C cliques -> NoDup C -> C <> [] -> incl C attrs -> incl C order ->
@@ -46,12 +46,50 @@ Theorem C12_schedule nbrs ncl sch : vschedb nbrs [] sch = true -> completeb ncl 
 Proof. intros V C. split. now apply vschedb_spec. exact (schedule_each_direction_once nbrs ncl sch V C). Qed.
 Print Assumptions C12_schedule.
 
-(* NOT proved (rip_partial): that the networkx maximum-weight spanning tree of the maximal elimination cliques always passes
-   rootokb (textbook: a max-weight spanning tree of the clique graph of a chordal graph is a junction tree).  The extracted
-   checker decides it on every tree the code builds; the thorough tier enumerates all graphs on <= 5 attributes x all orders. *)
+(* WHY THE MAXIMUM-WEIGHT SPANNING TREE (junction_tree.py:104-123, weights = sizes of the clique intersections) WORKS.
+   For a tree t over cliques with duplicate-free scopes inside D, rooted anywhere: every node containing attribute a is either a
+   "top" (its parent does not contain a) or joined to its parent by an edge whose separator contains a; so
+       weight t + sum_a #tops_a = sum_a N_a            (N_a = number of nodes containing a),
+   every occurring attribute has at least one top, hence weight t <= sum_a (N_a - 1), and the bound is attained exactly when every
+   attribute has ONE top - the nodes containing it form a connected subtree - which in turn gives the recursive predicate `good`
+   under which C01_exact holds. *)
+Theorem C12_weight_identity scope D t : NoDup D -> wfs scope D t ->
+  weight scope [] t + list_sum (map (fun a => length (tops scope a [] t)) D) = list_sum (map (fun a => cnt scope a t) D).
+Proof. exact (weight_identity scope D t). Qed.
+Print Assumptions C12_weight_identity.
+Theorem C12_weight_bound scope D t : NoDup D -> wfs scope D t ->
+  weight scope [] t + list_sum (map (fun a => Nat.min 1 (cnt scope a t)) D) <= list_sum (map (fun a => cnt scope a t) D).
+Proof. exact (weight_upper_bound scope D t). Qed.
+Print Assumptions C12_weight_bound.
+Theorem C12_weight_bound_attained_iff_running_intersection scope D t : NoDup D -> wfs scope D t ->
+  (weight scope [] t + list_sum (map (fun a => Nat.min 1 (cnt scope a t)) D) = list_sum (map (fun a => cnt scope a t) D)
+   <-> forall a, In a D -> length (tops scope a [] t) <= 1).
+Proof. exact (weight_max_iff_single_tops scope D t). Qed.
+Print Assumptions C12_weight_bound_attained_iff_running_intersection.
+Theorem C12_running_intersection_gives_good scope D t : wfs scope D t -> (forall a, In a D -> length (tops scope a [] t) <= 1) -> good scope t.
+Proof. exact (single_tops_good scope D t). Qed.
+Print Assumptions C12_running_intersection_gives_good.
+(* any tree over the same cliques that weighs at least as much as SOME junction tree is a junction tree: so every maximum-weight
+   spanning tree is one as soon as the clique set admits a junction tree at all, whatever tie-breaking networkx applies *)
+Theorem C12_max_weight_spanning_tree_is_junction_tree scope D t t' : NoDup D -> wfs scope D t -> wfs scope D t' ->
+  Permutation (nodes t) (nodes t') -> good scope t' -> weight scope [] t' <= weight scope [] t -> good scope t.
+Proof. intros ND W W' P. apply (max_weight_is_junction_tree scope D t t' ND W W'). intros a _. now apply same_nodes_same_cnt. Qed.
+Print Assumptions C12_max_weight_spanning_tree_is_junction_tree.
+
+(* NOT proved (rip_partial): that the maximal elimination cliques always ADMIT a junction tree (textbook: the clique graph of a
+   chordal graph has one) and that networkx returns a maximum-weight spanning tree.  With those two facts the theorem above gives
+   validity of every constructed tree; per run the extracted checker decides rootokb on every tree the code builds, and the thorough
+   tier enumerates all graphs on <= 5 attributes x all orders. *)
 
 (* non-vacuity: the 4-cycle a-b-c-d-a eliminated in order a,b,c,d *)
 Example C12_example :
   jt_cliques [0;1;2;3] [[0;1];[1;2];[2;3];[3;0]] [0;1;2;3] = [[0;1;3];[1;2;3]]
   /\ rootokb [0;1;2;3] 2 (fun c => nth c [[0;1;3];[1;2;3]] []) (fun c => nth c [[1];[0]] []) [(0,1);(1,0)] 0 = true.
 Proof. split; vm_compute; reflexivity. Qed.
+(* the weight identity on the chain [0,1]-[1,2]-[2,3] rooted in the middle: weight 2, one top per attribute; and on the same cliques
+   arranged as the star around [0,1] the attribute 2 has two tops and the weight drops to 1 *)
+Example C12_weight_example :
+  let scope := fun c => nth c [[0;1];[1;2];[2;3]] [] in
+  weight scope [] (Node 1 [Node 0 []; Node 2 []]) = 2 /\ map (fun a => length (tops scope a [] (Node 1 [Node 0 []; Node 2 []]))) [0;1;2;3] = [1;1;1;1]
+  /\ weight scope [] (Node 0 [Node 1 []; Node 2 []]) = 1 /\ map (fun a => length (tops scope a [] (Node 0 [Node 1 []; Node 2 []]))) [0;1;2;3] = [1;1;2;1].
+Proof. vm_compute. repeat split. Qed.
